@@ -126,7 +126,7 @@ PORT_NAMES = ["HTTP", "POSTGRES_SERVER", "DNS", "FTP", "NTP", "SSH", "ARP"]
 FILE_TYPES = ["TXT", "DOC", "PDF", "JPEG", "PNG", "MP3", "ZIP", "DB", "UNKNOWN"]
 
 DEFAULT_PROFILE: Dict[str, Any] = {
-    "topologies": ["lan", "routed", "routed", "routed2", "routed2", "firewall", "firewall", "wireless"],
+    "topologies": ["lan", "routed", "routed", "routed2", "routed2", "firewall", "firewall", "wireless", "firewall2", "dualgw"],
     "max_hosts_per_subnet": 3,
     "durations": [0, 1, 2, 3],
     "default_durations": [0, 1, 2, 3, 10],
@@ -599,6 +599,50 @@ class Gen:
         cfg = {"type": "firewall", "hostname": "firewall_1", "ports": ports, "acl": acl, "start_up_duration": self.pick_duration(), "shut_down_duration": self.pick_duration()}
         self.nodes.insert(0, cfg)
         self.inv["firewalls"]["firewall_1"] = {"ports": copy.deepcopy(ports), "acl": copy.deepcopy(acl), "routes": [], "default_route": None}
+        return cfgs
+
+    def build_firewall2(self):
+        """Firewall with DMZ (net1) and external (net2) switches as in build_firewall; its internal port leads to a
+        transit switch with no hosts and an inner router, behind which the internal hosts live (net3): internal
+        destinations the firewall reaches by a route, not on its internal port's own subnet."""
+        r = self.r
+        zone_port = {1: ("dmz_port", 3), 2: ("external_port", 1)}
+        gw0, mask0, inner_ip = "192.168.10.1", "255.255.255.0", "192.168.10.12"
+        ports: Dict[str, Dict] = {"internal_port": {"ip_address": gw0, "subnet_mask": mask0}}
+        cfgs = []
+        sw0 = self.add_switch("switch_1")
+        self.link("firewall_1", 2, sw0, 8)
+        self.inv["subnets"]["net0"] = {"mask": mask0, "gateway": gw0}
+        for s in (1, 2):
+            gw, mask, ips = self.subnet(s)
+            sw = self.add_switch(f"switch_{s + 1}")
+            key, num = zone_port[s]
+            ports[key] = {"ip_address": gw, "subnet_mask": mask}
+            self.link("firewall_1", num, sw, 8)
+            for i in range(r.randint(1, self.p["max_hosts_per_subnet"])):
+                cfgs.append(self.add_host(f"host_{s}_{i}", ips[i], mask, gw, None, sw, f"net{s}"))
+            self.inv["subnets"][f"net{s}"] = {"mask": mask, "gateway": gw}
+        gw3, mask3 = "192.168.40.1", "255.255.255.0"
+        sw3 = self.add_switch("switch_4")
+        self.link("router_in", 1, sw0, 6)
+        self.link("router_in", 2, sw3, 8)
+        for i in range(r.randint(1, self.p["max_hosts_per_subnet"])):
+            cfgs.append(self.add_host(f"host_3_{i}", f"192.168.40.{i + 2}", mask3, gw3, None, sw3, "net3"))
+        self.inv["subnets"]["net3"] = {"mask": mask3, "gateway": gw3}
+        pool = [self.inv["hosts"][c["hostname"]]["ip"] for c in cfgs]
+        acl = {}
+        for lst in ("internal_inbound_acl", "internal_outbound_acl", "dmz_inbound_acl", "dmz_outbound_acl", "external_inbound_acl", "external_outbound_acl"):
+            acl[lst] = self.router_acl(pool)
+        routes = [{"address": "192.168.40.0", "subnet_mask": mask3, "next_hop_ip_address": inner_ip, "metric": 0}]
+        cfg = {"type": "firewall", "hostname": "firewall_1", "ports": ports, "acl": acl, "routes": routes, "start_up_duration": self.pick_duration(), "shut_down_duration": self.pick_duration()}
+        self.inv["firewalls"]["firewall_1"] = {"ports": copy.deepcopy(ports), "acl": copy.deepcopy(acl), "routes": copy.deepcopy(routes), "default_route": None}
+        rports = {1: {"ip_address": inner_ip, "subnet_mask": mask0}, 2: {"ip_address": gw3, "subnet_mask": mask3}}
+        racl = self.router_acl(pool)
+        default = {"next_hop_ip_address": gw0}
+        rcfg = {"type": "router", "hostname": "router_in", "num_ports": 5, "ports": rports, "acl": racl, "default_route": default, "start_up_duration": self.pick_duration(), "shut_down_duration": self.pick_duration()}
+        self.inv["routers"]["router_in"] = {"ports": copy.deepcopy(rports), "acl": copy.deepcopy(racl), "routes": [], "default_route": copy.deepcopy(default), "num_ports": 5}
+        self.nodes.insert(0, rcfg)
+        self.nodes.insert(0, cfg)
         return cfgs
 
     # -- agents -----------------------------------------------------------------------------------------------------
